@@ -242,7 +242,9 @@ class LoginDevice:
 
 # ------------------------------------------------------------------------------------------- transports
 class _LoginCore:
-    def _init_login(self, clock=None, dts=(), eof="raise", budget=12, err_at=()):
+    def _init_login(self, clock=None, dts=(), eof="raise", budget=12, err_at=(), lag_at=None):
+        self.lag_at = dict(lag_at or {})   # read number (1-based) -> clock advance: that read returns b"" although the
+                                      # device's output is on its way (async: wait_for timed out; a slow AAA server)
         self.clock = clock or FakeClock()
         self.dts = list(dts)          # clock advance of the successive empty reads; afterwards 1 each
         self.eof = eof
@@ -257,6 +259,16 @@ class _LoginCore:
             self.tape.append(("E",))
             self.trace.append(("E",))
             raise ScrapliConnectionError("encountered error reading from transport, connection lost: TimeoutError('timed out')")
+
+    def _lagged(self) -> bool:
+        """an EMPTY read while output is on its way (scripted by lag_at)"""
+        n = len(self.tape) + 1
+        if n not in self.lag_at:
+            return False
+        self.clock.advance(self.lag_at[n])
+        self.tape.append(("c", b"", self.clock.elapsed()))
+        self.trace.append(("R", b""))
+        return True
 
     def _idle(self):
         """called when read() finds nothing buffered; returns b"" or raises"""
@@ -277,13 +289,15 @@ class _LoginCore:
 
 class LoginSimTransport(_LoginCore, SimTransport):
     def __init__(self, base_transport_args, device, cuts=None, faults=None, on_empty="stall", clock=None, dts=(), eof="raise", budget=12,
-                 err_at=()):
+                 err_at=(), lag_at=None):
         SimTransport.__init__(self, base_transport_args, device, cuts=cuts, on_empty=on_empty)
-        self._init_login(clock, dts, eof, budget, err_at)
+        self._init_login(clock, dts, eof, budget, err_at, lag_at)
 
     def read(self) -> bytes:
         self._pre_read()
         self._transient()
+        if self._lagged():
+            return b""
         if not self.buf:
             return self._idle()
         chunk = self._take()
@@ -293,13 +307,16 @@ class LoginSimTransport(_LoginCore, SimTransport):
 
 class AsyncLoginSimTransport(_LoginCore, AsyncSimTransport):
     def __init__(self, base_transport_args, device, cuts=None, faults=None, on_empty="stall", clock=None, dts=(), eof="raise", budget=12,
-                 err_at=()):
+                 err_at=(), lag_at=None):
         AsyncSimTransport.__init__(self, base_transport_args, device, cuts=cuts, on_empty=on_empty)
-        self._init_login(clock, dts, eof, budget, err_at)
+        self._init_login(clock, dts, eof, budget, err_at, lag_at)
 
     async def read(self) -> bytes:
         self._pre_read()
         self._transient()
+        if self._lagged():
+            await asyncio.sleep(0)
+            return b""
         if not self.buf:
             r = self._idle()
             await asyncio.sleep(0)
